@@ -209,7 +209,9 @@ ImplicitDropTerm(st, aid) ==
   LET f == ToFront(st, LAMBDA en : en.k = "term" /\ en.aid = aid) IN
   IF f.found
   THEN [st |-> Terminate(f.st, aid, "dropped"),
-        bad |-> B(~f.ok, "C04", "Dropped termination overtook earlier queued calls")]
+        bad |-> B(~f.ok, "C04", "Dropped termination overtook earlier queued calls")
+                \cup B(f.st.actors[aid].s = "ready" /\ \E i \in 1..Len(f.st.actors[aid].held) : f.st.actors[aid].held[i].k = "call",
+                       "C04", "Dropped termination overtook calls made earlier (still held from Prep)")]
   ELSE [st |-> Terminate(st, aid, "dropped"),
         bad |-> {<<"C04", "actor terminated as Dropped although no last-owner drop is pending">>,
                  <<"C03", "actor terminated as Dropped although no such termination request was issued">>}]
@@ -870,7 +872,16 @@ Apply(st, e) ==
     [] e.e = "crash" -> R([st EXCEPT !.panicked = TRUE], {<<p, "process aborted: " \o e.msg>> : p \in st.props})
     [] e.e = "dh" -> R([st EXCEPT !.dhq = Append(@, IF Has(st.items, e.item) THEN st.items[e.item].q ELSE "none")], {})
     [] e.e = "dhe" -> R([st EXCEPT !.dhq = IF @ = << >> THEN @ ELSE SubSeq(@, 1, Len(@) - 1)], {})
-    [] e.e = "end" -> IF st.panicked \/ ~e.leakcheck THEN R(st, {}) ELSE ApplyEnd(st)
+    [] e.e = "end" ->
+         IF st.panicked THEN R(st, {})
+         ELSE IF e.leakcheck THEN ApplyEnd(st)
+         ELSE IF "flushcheck" \in DOMAIN e /\ e.flushcheck /\ DOMAIN st.actors = {}
+         THEN \* no actors (no reference cycles possible): whatever was stranded in the Deferrer queue after
+              \* the Stakker was dropped has been released by the next Stakker::new
+              R(st, B(\E i \in DOMAIN st.items : i \notin st.tokdrop, "C16", "closure stranded after Stakker drop was not released by the next Stakker::new")
+                    \cup B(\E r \in DOMAIN st.rets : st.rets[r].s = "live", "C05", "Ret held by a stranded closure was never invoked")
+                    \cup B(st.expcb # << >>, "C05", "Ret handler not invoked at the moment of ret()/drop"))
+         ELSE R(st, {})
     [] OTHER -> R(st, {})     \* keepown, keepret, refstorm, dh, dhe, nop, endcase, ...
 
 =============================================================================
